@@ -5,6 +5,7 @@
 import Lean.Data.Json
 import BiscuitModel.Model.Intern
 import BiscuitModel.Model.Limits
+import BiscuitModel.Model.Wire
 open Lean
 namespace Biscuit.Codec
 
@@ -346,5 +347,39 @@ def failedOut (fs : List FailedCheck) : Json :=
   Json.arr (fs.map fun f => match f with
     | .authorizer i => Json.arr #[Json.str "authorizer", (i : Json)]
     | .block b i => Json.arr #[(b : Json), (i : Json)]).toArray
+
+
+/-! ### signed containers -/
+
+def parsePubKey (j : Json) : P PubKey := do
+  let a ← getInt (← field j "alg")
+  let b ← unhex (← (← field j "bytes").getStr?)
+  -- an algorithm tag outside the enumeration is kept distinct from the valid ones
+  pure ⟨if a < 0 then 1000000 + a.natAbs else a.toNat, b⟩
+
+def hexField (j : Json) (k : String) : P Bytes := do unhex (← (← field j k).getStr?)
+
+def parseSBlock (j : Json) : P SBlock := do
+  let ext ← (match fieldOpt j "ext" with
+    | some (.null) | none => pure none
+    | some e => do pure (some (⟨← parsePubKey (← field e "key"), ← hexField e "sig"⟩ : ExtSig)) : P (Option ExtSig))
+  let version : Option Nat := match fieldOpt j "version" with
+    | some (.num n) => some n.mantissa.toNat
+    | _ => none
+  pure ⟨← hexField j "data", ← parsePubKey (← field j "key"), ← hexField j "sig", ext, version⟩
+
+def parseContainer (j : Json) : P (Option Container) := do
+  let rk : Option Nat := match fieldOpt j "root_key_id" with
+    | some (.num n) => some n.mantissa.toNat
+    | _ => none
+  let a ← parseSBlock (← field j "authority")
+  let bs ← (← getArr (← field j "blocks")).mapM parseSBlock
+  let pj ← field j "proof"
+  match fieldOpt pj "secret", fieldOpt pj "seal" with
+  | some s, _ => pure (some ⟨rk, a, bs, .secret (← unhex (← s.getStr?))⟩)
+  | _, some s => pure (some ⟨rk, a, bs, .sealed (← unhex (← s.getStr?))⟩)
+  | _, _ => pure none
+
+def pubKeyOut (k : PubKey) : Json := Json.mkObj [("alg", k.alg), ("bytes", hex k.bytes)]
 
 end Biscuit.Codec
